@@ -103,7 +103,7 @@ def build(stream, p):
     if stream in ("set_vt", "foreign"):
         s, n = p["s"], p["n"]
         call = enc_call(22, s2c(s), n)
-        impl = lambda: guard(lambda: dsw.set_vt(dna_sequence=gen.typed_str(s), vt_length=n), lambda r: [s2c(r)])
+        impl = lambda: guard(lambda: gen.api("set_vt", dna_sequence=gen.typed_str(s), vt_length=n), lambda r: [s2c(r)])
 
         def oracle(ans, raw):
             if stream == "foreign":
